@@ -103,6 +103,24 @@ def skey(t):
     return r[1]
 
 
+def tree_size(t, memo, cap=10**7):
+    """Size of the term as a tree (shared sub-terms counted every time), memoised by identity."""
+    if type(t) is not tuple:
+        return 1
+    k = id(t)
+    r = memo.get(k)
+    if r is not None:
+        return r
+    n = 1
+    for x in t:
+        if type(x) is tuple:
+            n += tree_size(x, memo, cap)
+            if n > cap:
+                break
+    memo[k] = n
+    return n
+
+
 def iter_items(t):
     """Elements of a statically known iterable, or None."""
     tag = t[0]
@@ -1408,10 +1426,14 @@ class PE:
         else:
             limit = self.unroll
         if items is not None and len(items) <= limit and not self.has_flow_escape(s.body) and not s.orelse:
+            memo = {}
             for x in items:
                 self.bind_target(s.target, x, env)
                 if self.exec_block(s.body, env, effects):
                     return True
+                # unrolling must not blow terms up (a conditional update doubles the tree each iteration)
+                if any(tree_size(v, memo) > 60000 for v in env.values()):
+                    raise Unsupported('unrolled loop makes terms too large', s)
             return False
         self.loop_summary('for', s, it, env, effects)
         return False
